@@ -90,6 +90,25 @@ pub fn gen(tier: Tier, rng: &mut Rng) -> Vec<Sx> {
     let (d, h, keep) = if tier == Tier::Thorough { (7, 4, 1) } else { (6, 4, 1) };
     let mut stride = 0u64;
     enumerate(d, h, &Sim::new(), &mut vec![], &mut v, &mut stride, keep);
+    // deep histories around ONE derived fact: three explicit premises, the fact derived from the first, then every valid sequence of
+    // up to 4 (thorough 5) operations "give it another single-premise justification" / "retract a premise" - justifications recorded
+    // after others were lost, in every order (8..9 operations in all, beyond the depth of the exhaustive stream above)
+    {
+        let prefix = vec![Op::Ex, Op::Ex, Op::Ex, Op::Lg(vec![1])];
+        let mut sim0 = Sim::new(); for o in &prefix { sim0.apply(o); }
+        fn rec(depth: usize, sim: &Sim, cur: &mut Vec<Op>, out: &mut Vec<Sx>) {
+            if cur.len() > 4 { out.push(enc(cur)); }
+            if depth == 0 { return; }
+            let mut cands: Vec<Op> = vec![];
+            for p in 1..=3u64 { if sim.live[4] && sim.live[p as usize] { cands.push(Op::Aj(4, vec![p])); } if sim.live[p as usize] { cands.push(Op::Rt(p)); } }
+            for o in cands {
+                let mut s2 = Sim { live: sim.live.clone(), logical: sim.logical.clone(), justs: sim.justs.clone() };
+                s2.apply(&o); cur.push(o); rec(depth - 1, &s2, cur, out); cur.pop();
+            }
+        }
+        let mut cur = prefix.clone();
+        rec(if tier == Tier::Thorough { 5 } else { 4 }, &sim0, &mut cur, &mut v);
+    }
     // random: up to 10 ops over up to 7 facts, chains / diamonds / multiple justifications / cycles
     let n = if tier == Tier::Thorough { 400000 } else { 15000 };
     for _ in 0..n {
